@@ -709,6 +709,19 @@ func tamperHeight(c *core.Case, ch *chain, X *types.Block, parts *types.PartSet,
 		return false
 	}
 	run.Count("blocks_reassembled_from_parts", 1)
+	// the same block bytes in many small parts, random arrival with duplicates and adversarial parts
+	for _, psz := range []int{1000, 97} {
+		p, ok := newPset(c, bzX, psz)
+		if !ok {
+			return false
+		}
+		offers, _ := p.randomOffers(r)
+		if !runSeq(c, p, p.hdr(), offers, true, fmt.Sprintf("block of height %d in parts of %d bytes", h, psz)) {
+			return false
+		}
+		run.Count("blocks_reassembled_from_small_parts", 1)
+		run.Max("max_parts_of_a_block", int64(p.n))
+	}
 
 	primed := ch.newExecutor()
 	var e0 error
@@ -832,8 +845,7 @@ func tamperHeight(c *core.Case, ch *chain, X *types.Block, parts *types.PartSet,
 				return false
 			}
 			if !hashChanged && mh.Equals(parts.Header()) {
-				c.Violation("blockid:shared-by-different-blocks", fmt.Sprintf("a block differing in %s has the same hash and the same parts header", d), wit(map[string]interface{}{"differs_in": d}))
-				return false
+				c.Violation("blockid:shared-by-different-blocks", fmt.Sprintf("height %d: a valid block differing in %s has the same hash and the same parts header as the original", h, d), wit(map[string]interface{}{"differs_in": d}))
 			}
 		}
 		if hashChanged {
@@ -856,10 +868,12 @@ func tamperHeight(c *core.Case, ch *chain, X *types.Block, parts *types.PartSet,
 				key = "tamper-undetected:first-block-lastcommit-unconstrained"
 			}
 			c.Violation(key, fmt.Sprintf("height %d: mutation of %s (%s) keeps Block.Hash(), passes ValidateBasic and ValidateBlock on a fresh executor", h, m.field, m.desc), wit(ex))
+			tally("violating_mutations", key+" <- "+m.field+": "+stripNo(m.desc))
 			run.Count("mutants_same_hash_accepted", 1)
 		case errP == nil:
-			c.Violation("validation-cache:"+cacheClass(m.field), fmt.Sprintf("height %d: mutation of %s (%s) keeps Block.Hash(); a fresh executor rejects it (%s) but an executor that has just validated the original block reports it valid", h, m.field, m.desc, shortErr(errF)), wit(ex))
+			c.Violation("validation-cache:"+cacheClass(m.field), fmt.Sprintf("height %d: mutation of %s (%s) keeps Block.Hash(); a fresh executor rejects it (%s) but an executor that has just validated the original block reports it valid", h, m.field, m.desc, trunc(errF.Error(), 140)), wit(ex))
 			run.Count("mutants_same_hash_accepted_from_cache", 1)
+			tally("violating_mutations", "validation-cache:"+cacheClass(m.field)+" <- "+m.field+": "+stripNo(m.desc))
 		default:
 			sameHashRejected++
 			run.Count("mutants_same_hash_rejected_by_validation", 1)
@@ -888,6 +902,13 @@ func stripNo(d string) string {
 		}
 	}
 	return d
+}
+
+func trunc(s string, n int) string {
+	if len(s) > n {
+		return s[:n] + "..."
+	}
+	return s
 }
 
 func shortOrNil(err error) string {
